@@ -354,7 +354,7 @@ CHECKS = {
              "definition; TLC explores every history of 3 (thorough 4) events and simulated 7-event histories; the rendered "
              "modules are compiled and executed, each call site reporting which definition it expanded to, and "
              "core-shadow warnings are compared, including the pragma that disables them.",
-        note="Local macros are scoped by functions only (classes and comprehensions share the mechanism)."),
+        note="Scopes are rendered as functions, class bodies and comprehensions in rotation (all three open a local macro scope)."),
     "C36": dict(
         engine="macros", level="model_checking", design="5.7, 6/C36",
         technique="TLC enumerates every macro environment of HyExpand and checks the one-step / fixpoint laws; each is "
